@@ -13,6 +13,7 @@ package main
 
 import (
 	"fmt"
+	"io"
 	"math"
 	"os"
 	"path/filepath"
@@ -360,6 +361,8 @@ func c05NRecords(r *Rng, tier string, nsamp int) int {
 
 func genC05(r *Rng, tier string, idx int) (string, func() string) {
 	switch m := r.Intn(100); {
+	case m < 6:
+		return c05Reader(r, tier, idx)
 	case m < 14:
 		return c05Direct(r, tier, idx, "dir22")
 	case m < 28:
@@ -801,4 +804,154 @@ func c05Batch(r *Rng, tier string, p *c05Params, sel int, k int) []*c05Rec {
 		qs[i] = q
 	}
 	return qs
+}
+
+// ---- the repository's own LJH reader ---------------------------------------------------------
+//
+// mode rd: a file written by the real ljh.Writer (WriteHeader with generated parameters, 0..12 records, Close) is
+// cut (CUT kind a: 0 = not at all, 1 = at a*len/1000 bytes, 2 = a bytes before the end), then opened with the real
+// ljh.OpenReader and read to the end with NextPulse.
+// line: rd P <params> OPS n C H (W22 ...|F)* X CUT kind a OUT res .. f22 <uncut file> f3 A foff A
+//       rdr <ok|magic|version|noend|other> [ver ws npre ns ch <tsoff bits> <timebase bits> hlen rlen np (sub ts data)* <eof|ueof|other>]
+
+func c05Reader(r *Rng, tier string, idx int) (string, func() string) {
+	p := c05GenParams(r, tier, false, false)
+	if r.Chance(80) {
+		p.nsamp = r.Range(1, 24)
+		p.npre = r.Intn(p.nsamp + 1)
+	}
+	nrec := r.Pick(0, 0, 1, 1, 2, 3, r.Range(1, 12))
+	nlFirst := r.Chance(25) // the first body bytes are CR / LF characters (low bytes of the first sub-frame count)
+	if nlFirst {
+		p.subdiv, p.suboff = 1, 0
+	}
+	ops := []*c05Op{{kind: "C"}, {kind: "H"}}
+	for k := 0; k < nrec; k++ {
+		o := &c05Op{kind: "W22", frame: c05I64(r), ts: c05I64(r)}
+		if nlFirst && k == 0 {
+			o.frame = int64(r.Pick(10, 13, 0x0a0a, 0x0d0a, 0x0a0d, 0x0a0a0a, 0x0d0a0d0a, 0x100a))
+		}
+		n := p.nsamp
+		if r.Chance(4) {
+			n = p.nsamp + 1 // refused
+		}
+		o.data = c05Samples(r, n)
+		if r.Chance(10) {
+			ops = append(ops, &c05Op{kind: "F"})
+		}
+		ops = append(ops, o)
+	}
+	ops = append(ops, &c05Op{kind: "X"})
+	recsize := 16 + 2*p.nsamp
+	cutKind, cutA := 0, 0
+	switch c := r.Intn(100); {
+	case c < 50:
+	case c < 70:
+		cutKind, cutA = 1, r.Range(0, 1000)
+	default:
+		cutKind = 2
+		cutA = r.Pick(1, 2*p.nsamp-1, 2*p.nsamp, 2*p.nsamp+1, 2*p.nsamp+7, 2*p.nsamp+8, 2*p.nsamp+9, recsize-1, recsize, recsize+1,
+			r.Range(0, 2*recsize), r.Range(0, 40))
+		if cutA < 0 {
+			cutA = 0
+		}
+	}
+	in := c05Input("rd", p, ops) + fmt.Sprintf(" CUT %d %d", cutKind, cutA)
+	run := func() string {
+		dir := c05Dir()
+		name := filepath.Join(dir, fmt.Sprintf("r%d.ljh", idx))
+		cutName := filepath.Join(dir, fmt.Sprintf("r%d_cut.ljh", idx))
+		defer os.Remove(name)
+		defer os.Remove(cutName)
+		var res strings.Builder
+		bit := func(err error) {
+			if err != nil {
+				res.WriteByte('1')
+			} else {
+				res.WriteByte('0')
+			}
+		}
+		w := ljh.Writer{ChannelIndex: p.ci, Presamples: p.npre, Samples: p.nsamp, FramesPerSample: p.fps,
+			SubframeDivisions: p.subdiv, Timebase: p.tb, TimestampOffset: time.Unix(0, p.tsoff),
+			NumberOfRows: p.nrows, NumberOfColumns: p.ncols, NumberOfChans: p.nchans, FileName: name,
+			DastardVersion: p.dver, GitHash: p.ghash, SourceName: p.src, ChanName: p.chname,
+			ChannelNumberMatchingName: p.chnum, ColumnNum: p.col, RowNum: p.row, SubframeOffset: p.suboff,
+			PixelXPosition: p.px, PixelYPosition: p.py, PixelName: p.pxname}
+		for _, o := range ops {
+			switch o.kind {
+			case "C":
+				bit(w.CreateFile())
+			case "H":
+				bit(w.WriteHeader(time.Unix(0, o.ts)))
+			case "F":
+				w.Flush()
+			case "X":
+				w.Close()
+			case "W22":
+				bit(w.WriteRecord(o.frame, o.ts, o.data))
+			}
+		}
+		full, err := os.ReadFile(name)
+		if err != nil {
+			return "res E-read f22 A f3 A foff A rdr other"
+		}
+		cut := len(full)
+		switch cutKind {
+		case 1:
+			cut = cutA * len(full) / 1000
+		case 2:
+			cut = len(full) - cutA
+			if cut < 0 {
+				cut = 0
+			}
+		}
+		if err := os.WriteFile(cutName, full[:cut], 0644); err != nil {
+			return "res E-write f22 A f3 A foff A rdr other"
+		}
+		var sb strings.Builder
+		fmt.Fprintf(&sb, "res %s f22 %s f3 A foff A rdr ", res.String(), hexs(full))
+		rd, err := ljh.OpenReader(cutName)
+		if err != nil {
+			if rd != nil {
+				rd.Close()
+			}
+			switch msg := err.Error(); {
+			case strings.Contains(msg, "must begin with"):
+				sb.WriteString("magic")
+			case strings.Contains(msg, "could not find"):
+				sb.WriteString("noend")
+			case strings.Contains(msg, "version number"):
+				sb.WriteString("version")
+			default:
+				sb.WriteString("other")
+			}
+			return sb.String()
+		}
+		defer rd.Close()
+		hl, rl := rd.VerifLengths()
+		fmt.Fprintf(&sb, "ok %d %d %d %d %d %d %d %d %d", int(rd.VersionNumber), rd.WordSize, rd.Presamples, rd.Samples,
+			rd.ChannelIndex, math.Float64bits(rd.TimestampOffset), math.Float64bits(rd.Timebase), hl, rl)
+		var pulses []string
+		end := "other"
+		for len(pulses) <= nrec+2 {
+			pr, err := rd.NextPulse()
+			if err != nil {
+				switch err {
+				case io.EOF:
+					end = "eof"
+				case io.ErrUnexpectedEOF:
+					end = "ueof"
+				}
+				break
+			}
+			pulses = append(pulses, fmt.Sprintf("%d %d %s", pr.SubframeCount, pr.TimeCode, c05DataHex(pr.Pulse)))
+		}
+		fmt.Fprintf(&sb, " %d", len(pulses))
+		for _, q := range pulses {
+			sb.WriteString(" " + q)
+		}
+		sb.WriteString(" " + end)
+		return sb.String()
+	}
+	return in, run
 }
